@@ -88,7 +88,7 @@ def stepAlias (st : St) (cmd : List String) (got : String) : Option (St × Verdi
     | some s => some ({ st with zb := st.zb.insert b ("frozen", s, true) }, expect "ok" got)
   | ["zrd", y, entry, b] =>
     let zeroCopy := entry == "frombuffer" || entry == "fromunsafe" || entry == "frozen"
-    let copying := entry == "readfrom" || entry == "must" || entry == "unmarshal" || entry == "base64"
+    let copying := entry == "readfrom" || entry == "must" || entry == "mustck" || entry == "readfromck" || entry == "unmarshal" || entry == "base64"
     let want := if entry == "frozen" then "frozen" else if zeroCopy || copying then "portable" else ""
     match st.zb[b]? with
     | some (kind, s, true) =>
